@@ -27,7 +27,7 @@ PROPS = {
     "C02": {
         "props": "TrackVerif.TA.PropsC02",
         "streams": [("TA", 1500, 20000)],
-        "clauses": ["ta.decode", "ta.no_row_loss"],
+        "clauses": ["ta.decode", "ta.no_row_loss", "ta.malformed_accepted"],
         "rule": "PRNG(seed) well-formed logs: column subsets/permutations of the 35 known headers (quoted or bare, LF or CRLF, "
                 "with or without final newline), 0..40 rows (up to 400 in thorough), lap markers at arbitrary positions, header/trailing comments; "
                 "plus the real 12k-line log (head and lap-boundary excerpts in quick, whole file in thorough); non-trivial = >= 3 lines; distinct by SHA-1",
